@@ -437,6 +437,69 @@ func c02Diff(ctx *core.Ctx, idx int) core.Result {
 	return res
 }
 
+// c02YieldOperand: a yield evaluates to its operand as it was when the yield
+// ran, also when the loop body changes the operand's variable before the
+// generator is resumed. Operand kinds: global, captured, local, parameter,
+// constant, expression; the body assigns the variable or leaves it alone.
+func c02YieldOperand(ctx *core.Ctx, idx int) core.Result {
+	r := core.CaseRng(ctx.Seed, "C02/yieldoperand", idx)
+	k := int64(r.Range(2, 5))
+	bump := func(v string) ast.Node {
+		return ast.Assign{Name: v, Value: ast.Binary{Op: "+", L: ast.Binary{Op: "*", L: nm(v), R: il(k)}, R: il(1)}}
+	}
+	hdef := func(args []ast.Node) ast.Node {
+		return ast.Assign{Name: "h", Value: ast.FuncLit{Body: ast.Block{Stmts: []ast.Node{ast.Assign{Name: "a", Value: ast.Call{Fn: "emit", Args: args}}, ast.Assign{Name: "b", Value: ast.Call{Fn: "emit", Args: args}}, ast.Yield{X: ast.ArrayLit{Elems: []ast.Node{nm("a"), nm("b")}}}}}}}
+	}
+	loop := func(v string) []ast.Node {
+		return []ast.Node{ast.Assign{Name: "seen", Value: ast.ArrayLit{}},
+			ast.For{Vars: []string{"v"}, Iters: []ast.Node{icall("h")}, Body: ast.Block{Stmts: []ast.Node{ast.Assign{Name: "seen", Value: ast.Binary{Op: "+", L: nm("seen"), R: ast.ArrayLit{Elems: []ast.Node{nm("v")}}}}, bump(v)}}},
+			ast.ArrayLit{Elems: []ast.Node{nm("seen"), nm(v)}}}
+	}
+	var stmts []ast.Node
+	kind := idx % 6
+	names := []string{"global", "captured", "local", "parameter", "constant", "expression"}
+	switch kind {
+	case 0: // bare global, the (top level) body assigns it
+		stmts = []ast.Node{ast.Assign{Name: "n", Value: il(1)}, ast.Assign{Name: "emit", Value: ast.FuncLit{Body: ast.Yield{X: nm("n")}}}, hdef(nil), ast.Block{Stmts: loop("n")}}
+	case 1: // captured variable of the function that runs the loop
+		body := append([]ast.Node{ast.Assign{Name: "c", Value: il(1)}, ast.Assign{Name: "emit", Value: ast.FuncLit{Body: ast.Yield{X: nm("c")}}}, hdef(nil)}, loop("c")...)
+		stmts = []ast.Node{ast.Assign{Name: "mk", Value: ast.FuncLit{Body: ast.Block{Stmts: body}}}, icall("mk")}
+	default: // local / parameter / constant / expression operands, the body computes in between
+		var operand ast.Node
+		params := []string{}
+		var pre []ast.Node
+		switch kind {
+		case 2:
+			pre = []ast.Node{ast.Assign{Name: "loc", Value: il(int64(r.Intn(50)))}}
+			operand = nm("loc")
+		case 3:
+			params = []string{"p"}
+			operand = nm("p")
+		case 4:
+			operand = il(int64(r.Intn(50)))
+		default:
+			params = []string{"p"}
+			operand = ast.Binary{Op: "+", L: ast.Binary{Op: "*", L: nm("p"), R: il(2)}, R: il(1)}
+		}
+		body := append(pre, ast.Yield{X: operand})
+		var eb ast.Node = body[0]
+		if len(body) > 1 {
+			eb = ast.Block{Stmts: body}
+		}
+		var args []ast.Node
+		if len(params) > 0 {
+			args = []ast.Node{il(int64(r.Intn(9)))}
+		}
+		stmts = []ast.Node{ast.Assign{Name: "emit", Value: ast.FuncLit{Params: params, Body: eb}}, hdef(args), ast.Assign{Name: "q", Value: il(3)}, ast.Block{Stmts: loop("q")}}
+	}
+	opts := diffOpts{DoOut: idx%2 == 0, Stress: stressModes[(idx/6)%len(stressModes)], Residue: true}
+	d := runDiff(stmts, opts)
+	res := diffCase("C02", stmts, opts, d, map[string]any{"family": "yieldoperand", "operand": names[kind]})
+	res.Tag("yield-operand:" + names[kind])
+	res.Nontrivial = d.Verdict == core.Held && d.Stats.Yields >= 3
+	return res
+}
+
 func init() {
 	register(&core.Property{
 		ID:          "C02",
@@ -446,7 +509,8 @@ func init() {
 			{Name: "corpus", Count: func(string) int { return len(corpusSessions()) * 2 * len(stressModes) }, Run: func(_ *core.Ctx, idx int) core.Result { return corpusCase("C02", idx, true) }},
 			{Name: "trace", Count: countFn(10000, 600000), Run: c02Trace},
 			{Name: "diff", Count: countFn(8000, 400000), Run: c02Diff},
+			{Name: "yieldoperand", Count: countFn(600, 30000), Run: c02YieldOperand},
 		},
-		Floors: []core.Floor{{Key: "trace_events", Quick: 60000, Thor: 8000000}, {Key: "yields", Quick: 20000, Thor: 2000000}, {Key: "tag:stage:", Quick: 10, Thor: 10}, {Key: "tag:consumer:", Quick: 6, Thor: 6}, {Key: "context_clone_reuse", Quick: 500, Thor: 50000}},
+		Floors: []core.Floor{{Key: "trace_events", Quick: 60000, Thor: 8000000}, {Key: "yields", Quick: 20000, Thor: 2000000}, {Key: "tag:stage:", Quick: 10, Thor: 10}, {Key: "tag:consumer:", Quick: 6, Thor: 6}, {Key: "tag:yield-operand:", Quick: 6, Thor: 6}, {Key: "context_clone_reuse", Quick: 500, Thor: 50000}},
 	})
 }
